@@ -686,6 +686,10 @@ def run(ctx):
     except Exception as e:        # noqa  fail closed: hand-written `pinned` + correspondence only
         ctx.extra["translator"] = "translator_fallback: %s: %s" % (type(e).__name__, str(e)[:300])
         ctx.notes.append(ctx.extra["translator"])
+    # ---- handle coherence: inventory of memoised attributes regenerated from api.py/writer.py, inventory_ok re-proved on it
+    #      (genproofs/GenHandleProofs.v), programs over live handles against fresh handles on the real code
+    from harness import handleprog as HP
+    HP.stream(ctx, nds=20 if ctx.quick() else 150, nprog=4 if ctx.quick() else 8, register_obligations=True)
     rng = ctx.rng
     ctx.rule = ("datasets: (a) frames of C01 (harness/frames.py: every dtype kind x null patterns, sizes 0..257, optional index incl. "
                 "nullable/tz/categorical index kinds) written by the real writer under the option tuples of harness/rt.py (row-group offsets, "
@@ -875,6 +879,9 @@ def replay(rep):
         return 1
     C.use_shadow()
     case = rep["case"]
+    if "handle_program" in case:
+        from harness import handleprog as HP
+        return HP.replay_case(case["handle_program"])
     tmp = tempfile.mkdtemp(prefix="verif-C17-replay-", dir="/tmp")
 
     def job(case):
